@@ -16,7 +16,7 @@ if ! git -C "$WT" apply --exclude='internal/integration/*/*' --exclude='examples
     echo "PATCH-DOES-NOT-APPLY"; head -5 "$VT/apply.err"; exit 3
   fi
 fi
-if grep -qE '^diff --git a/(internal/integration/[^/]+/|examples/ex_)' "$PATCH"; then
+if [ -n "${MUT_REGEN:-}" ] || grep -qE '^diff --git a/(internal/integration/[^/]+/|examples/ex_)' "$PATCH"; then
   /verif/tools/regen_fixtures.sh "$WT" >/dev/null 2>&1 || echo "note: fixture regeneration failed with the mutant"
 fi
 (cd "$WT" && go build ./... ) 2>"$VT/build.err" || { echo "MUTANT-DOES-NOT-BUILD"; head -5 "$VT/build.err"; exit 4; }
